@@ -26,7 +26,7 @@ CLAIMED = {
         "DESIGN.md 4.3",
     ),
     "C12": (
-        "static path/dominance rules: CRC-failure exit returns the whole candidate as one non-RTCM message, no content-dependent exit or push-back while a candidate is read, leader-only rejection sites of the five-byte helper, CRC gate completeness, week-state changes dominated by the CRC-success edge, C02 conservation; composed with the no-panic obligations of the stream handler; who-may-call rule: no fmt.Print*/os.Stdout in module code reachable from the entry point",
+        "static path/dominance rules: CRC-failure exit returns the whole candidate as one non-RTCM message, no content-dependent exit or push-back while a candidate is read, leader-only rejection sites of the five-byte helper, CRC gate completeness, week-state changes dominated by the CRC-success edge, C02 conservation; composed with the no-panic obligations of the stream handler; who-may-call rule: no fmt.Print*/os.Stdout in module code reachable from the entry point; no-panic obligations and raw-buffer read-only rule over all decode/display entry points",
         "Decides that a CRC failure cannot move a frame boundary and costs exactly the candidate frame, on every path.",
         "the corrupted frame's CRC differs (2^-24 residual inherent to CRC)",
         "DESIGN.md 4.12",
@@ -38,13 +38,13 @@ CLAIMED = {
         "DESIGN.md 4.4",
     ),
     "C05": (
-        "static bit-layout extraction for 1005/1006, rejection-site enumeration against the two stated reasons, constant/format-verb analysis of the display (scale 1/10000, %.4f, X-Y-Z order) with a must-pass rule (no path through the display goes round the formatting call), padding non-interference",
+        "static bit-layout extraction for 1005/1006, rejection-site enumeration against the two stated reasons, constant/format-verb analysis of the display (scale 1/10000, %.4f, X-Y-Z order) with a must-pass rule (no path through the display goes round the formatting call), padding non-interference; bit-read extents of both decoders discharged by affine entailment",
         "Decides layout, guards and display formatting structurally for all field values; float rounding argued, not computed.",
         "bit reader correct (C14); fmt formats %.4f correctly",
         "DESIGN.md 4.5",
     ),
     "C06": (
-        "static dataflow/dominance rules: lost-update (copy-of-receiver) analysis, per-constellation field separation, type-dispatch table extraction, no-store-on-error paths, strict rollover comparison, result-shape rule of the Glonass converter, state changes only after the CRC gate, constant evaluation; must-pass rule: the remembered timestamp is stored on every successful path; who-may-call rule: no use of time.Now/Since/Until reachable from the handler constructor or the decoder; composed with the stream-delivers-decoder-result rules of C01",
+        "static dataflow/dominance rules: lost-update (copy-of-receiver) analysis, per-constellation field separation, type-dispatch table extraction, no-store-on-error paths, strict rollover comparison, result-shape rule of the Glonass converter, state changes only after the CRC gate, constant evaluation; must-pass rule: the remembered timestamp is stored on every successful path; who-may-call rule: no use of time.Now/Since/Until reachable from the handler constructor or the decoder; composed with the stream-delivers-decoder-result rules of C01; entailment rule: the timestamp read lies inside the declared message body",
         "Decides structural necessary conditions of the week bookkeeping (state persistence, constellation separation, dispatch tables over the whole type domain, no state write on error paths, strict rollover test with +7 days, offset/limit constants). Does not decide numerical equality of reported times.",
         "time.Time arithmetic and calendar trusted; oracle constants from the property statement",
         "DESIGN.md 4.6",
@@ -56,13 +56,13 @@ CLAIMED = {
         "DESIGN.md 4.7",
     ),
     "C08": (
-        "static dimensional/fixed-point typing of the formula methods over SSA (unit, binary exponent, decimal exponent, sign, bit ranges for |), sentinel constants against the layout widths, marker tests (==/!= against exactly the field's marker), zero-result guards, numeric constants, frequency-table partition over all signal ids, operand ownership (no package-level storage in the cell packages); parameter-dependence analysis of the shared scale helpers and of the wavelength dispatcher; a formula tests only the fine field it uses",
+        "static dimensional/fixed-point typing of the formula methods over SSA (unit, binary exponent, decimal exponent, sign, bit ranges for |), sentinel constants against the layout widths, marker tests (==/!= against exactly the field's marker), zero-result guards, numeric constants, frequency-table partition over all signal ids, operand ownership (no package-level storage in the cell packages); parameter-dependence analysis of the shared scale helpers and of the wavelength dispatcher; a formula tests only the fine field it uses; no in-place append to decoded slices in the MSM packages; composed with all rules of C04",
         "Decides for all field values that each formula has the standard's scale/unit/sign and that invalid markers are handled as stated; floating-point rounding is not computed.",
         "field units from the oracle (RTCM DF definitions); documented frequency table taken as given",
         "DESIGN.md 4.8",
     ),
     "C09": (
-        "static concurrency-structure analysis: channel close-site ownership, single-sender, fan-out path rule, completion-on-close dominance, termination chain, go-operand confinement, Kahn-determinism effect check, forward-once and transient-gap (EOF clock / error classification) rules of the reader stage; fresh-buffer and retained-reference rules for delivered messages; configuration accessors as projections",
+        "static concurrency-structure analysis: channel close-site ownership, single-sender, fan-out path rule, completion-on-close dominance, termination chain, go-operand confinement, Kahn-determinism effect check, forward-once and transient-gap (EOF clock / error classification) rules of the reader stage; fresh-buffer and retained-reference rules for delivered messages; configuration accessors as projections; stop path of the fan-out guarded by an out-of-domain sentinel",
         "Decides the ownership/ordering/completion/confinement discipline that makes the pipeline schedule-independent (all schedules, all chunkings): one closer per channel, one sender per channel, synchronous in-order fan-out of the received value to every non-nil consumer, return only on closed channel, no shared mutable state. Does not execute schedules.",
         "Go channel semantics and memory model trusted; consumers supplied by callers are outside",
         "DESIGN.md 4.9",
@@ -80,25 +80,25 @@ CLAIMED = {
         "DESIGN.md 4.10",
     ),
     "C13": (
-        "static classification of every return of the file handler by its dominating conditions (retryable vs fatal, zero tolerance, tolerance elapsed), forward-once path rule with the bufio short-read argument, EOF-clock phi analysis (cleared on success, started only when clear), close/flush rules; configuration accessors as projections; single-sender/confinement rules for the framer goroutine",
+        "static classification of every return of the file handler by its dominating conditions (retryable vs fatal, zero tolerance, tolerance elapsed), forward-once path rule with the bufio short-read argument, EOF-clock phi analysis (cleared on success, started only when clear), close/flush rules; configuration accessors as projections; single-sender/confinement rules for the framer goroutine; every-path rule: a retry pause is reached only with an EOF or time-out result",
         "Decides the retry structure for all placements of EOF/timeout results: which conditions stop the handler, that every byte read is forwarded exactly once, that the partial frame is flushed and the channel closed.",
         "bufio.Reader.Read contract for short destinations; real time not modelled",
         "DESIGN.md 4.13",
     ),
     "C15": (
-        "static effect/mod analysis: package variables written only in init, no store through raw frame buffers, display stores confined to Readable/ErrorMessage and idempotent (no read-modify-write), handler holds no references, by-value fan-out before any display, no reads of mutable package state; Copy independence; dependence analysis of error exits of the time converters on handler state; no map iteration order on the decode/display path (collect-and-sort form only)",
+        "static effect/mod analysis: package variables written only in init, no store through raw frame buffers, display stores confined to Readable/ErrorMessage and idempotent (no read-modify-write), handler holds no references, by-value fan-out before any display, no reads of mutable package state; Copy independence; dependence analysis of error exits of the time converters on handler state; no map iteration order on the decode/display path (collect-and-sort form only); no in-place append to a truncated view of a decoded slice",
         "Decides absence of hidden state and of shared mutable data on the decode/display path for all orders, repetitions and concurrent handlers (effect analysis over every reachable function).",
         "fmt/hex/time formatting is pure; time lines excluded by the property",
         "DESIGN.md 4.15",
     ),
     "C16": (
-        "static path rules (read->write->send exactly once, in order, same buffer and n), private-copy dataflow, consumer-loop rule, join analysis; every-path rule: the copy loop returns only over an err == io.EOF edge; arithmetic no-panic obligations (index, slice, bit-read extents, division, shift) of the copy loop, recorder and their callees discharged by affine entailment; who-may-call rule: no os.NewFile, syscall.Close/Dup2 or Close of a standard stream reachable from start",
+        "static path rules (read->write->send exactly once, in order, same buffer and n), private-copy dataflow, consumer-loop rule, join analysis; every-path rule: the copy loop returns only over an err == io.EOF edge; arithmetic no-panic obligations (index, slice, bit-read extents, division, shift) of the copy loop, recorder and their callees discharged by affine entailment; who-may-call rule: no os.NewFile, syscall.Close/Dup2 or Close of a standard stream reachable from start; constant-argument rule for the daily writers (record name pattern unique to its directory setting) and guarded-store rule for the record directory",
         "Decides the tee structure of rtcmlogger on every CFG path: each block read is written to stdout and sent as a fresh copy to the recorder exactly once, the recorder writes every block and is joined before start returns. Does not decide dailylogger's file handling.",
         "os.File Read/Write contracts; dailylogger is a dependency",
         "DESIGN.md 4.16",
     ),
     "C17": (
-        "static information-flow (taint) analysis: start-time parameter as source, week quantiser as sanitiser, Handler fields as sinks; structural check of the quantiser; result-shape rule of the Glonass converter (no history-dependent re-basing); call-graph rule: the start time is handed on unchanged from the entry points to handler.New; no use of the machine's clock reachable from the constructor or the decoder",
+        "static information-flow (taint) analysis: start-time parameter as source, week quantiser as sanitiser, Handler fields as sinks; structural check of the quantiser; result-shape rule of the Glonass converter (no history-dependent re-basing); call-graph rule: the start time is handed on unchanged from the entry points to handler.New; no use of the machine's clock reachable from the constructor or the decoder; def-use rule on the quantiser's argument (zone conversions and a fixed shift only); time-dispatch table rule of C06",
         "Decides non-interference of the start time modulo the week quantiser for all start times: any unquantised flow into handler state is reported with its def-use chain. Calendar arithmetic of the quantiser is assumed.",
         "time package semantics; quantiser granularity argued structurally (Sunday 00:00:00 UTC) and tested by the suite",
         "DESIGN.md 4.17",
